@@ -24,6 +24,8 @@ package home
 //vx:note outside: net/http's mux (pattern selection, path cleaning and its redirects, CONNECT), so path spellings that normalise to a protected path are covered only as "whatever reaches the / subtree handler"; the closed-world side condition (no registration site outside the functions executed here; pprof mux on localhost, internal/next) is not checked by the engine; the wiring HTTPRegister: httpRegister in home/dns.go and home.go (initDNS etc. need real I/O); handler bodies (incl. getCurrentUser in profile); gzip middleware (identity); HTTPS redirect stage with no HTTPS server configured; gl-inet mode (GLMode false); bcrypt (verdict bit); session file (storeSession/removeSessionFromFile are no-ops, see C12); first-run with an administrator present; Windows dhcpd stubs; request without a Cookie header answered by a harness copy of http.ErrNoCookie
 //vx:stub (*net/http.ServeMux).Handle vxC11MuxHandle
 //vx:stub (*net/http.ServeMux).HandleFunc vxC11MuxHandleFunc
+//vx:stub net/http.Handle vxC11DefaultHandle
+//vx:stub net/http.HandleFunc vxC11DefaultHandleFunc
 //vx:stub github.com/AdguardTeam/AdGuardHome/internal/home.httpRegister vxC11HTTPRegister
 //vx:stub github.com/NYTimes/gziphandler.GzipHandler vxC11Gzip
 //vx:stub net/http.Redirect vxC11Redirect
@@ -101,6 +103,16 @@ func vxC11MuxHandleFunc(mux *http.ServeMux, pattern string, h func(http.Response
 		vx.Fail("registration on a mux other than the web server's")
 	}
 	vxC11Record(pattern, http.HandlerFunc(h))
+}
+
+// vxC11DefaultHandle and vxC11DefaultHandleFunc replace http.Handle and
+// http.HandleFunc (registration on the process-wide default mux).
+func vxC11DefaultHandle(pattern string, h http.Handler) {
+	vx.Fail("registration on a mux other than the web server's")
+}
+
+func vxC11DefaultHandleFunc(pattern string, h func(http.ResponseWriter, *http.Request)) {
+	vx.Fail("registration on a mux other than the web server's")
 }
 
 // vxC11HTTPRegister observes the calls of the real registration helper (the
